@@ -366,6 +366,7 @@ type FuncContract struct {
 	Why      string // reason when trusted
 	Strings  string
 	NoInline bool
+	AppendView bool // state the element view of append results with sla-triggers (needed for quantified slice facts)
 	Line     int
 }
 
@@ -406,8 +407,8 @@ type Contracts struct {
 	Ghosts  []Param
 }
 
-var clauseKw = map[string]bool{"defines": true, "assumes": true, "requires": true, "ensures": true, "assigns": true, "loop": true, "decreases": true, "property": true,
-	"pure": true, "trusted": true, "strings": true, "noinline": true, "params": true}
+var clauseKw = map[string]bool{"uses": true, "law": true, "defines": true, "assumes": true, "requires": true, "ensures": true, "assigns": true, "loop": true, "decreases": true, "property": true,
+	"pure": true, "appendview": true, "trusted": true, "strings": true, "noinline": true, "params": true}
 
 func parseProps(s *string) []string {
 	// leading "[C01,C02]" tag
@@ -510,6 +511,8 @@ func loadContracts(path string) (*Contracts, error) {
 			}
 		case "pure":
 			cur.Pure = true
+		case "appendview":
+			cur.AppendView = true
 		case "noinline":
 			cur.NoInline = true
 		case "trusted":
@@ -524,7 +527,7 @@ func loadContracts(path string) (*Contracts, error) {
 				return nil, fail(fmt.Errorf("bad ghost declaration"))
 			}
 			c.Ghosts = append(c.Ghosts, Param{fs[0], strings.TrimSpace(rest[len(fs[0]):])})
-		case "requires", "ensures", "decreases", "defines", "assumes":
+		case "requires", "ensures", "decreases", "defines", "assumes", "law":
 			props := parseProps(&rest)
 			name := ""
 			if i := strings.Index(rest, "@@"); i >= 0 { // optional clause name:  name @@ expr
@@ -536,6 +539,22 @@ func loadContracts(path string) (*Contracts, error) {
 				return nil, fail(err)
 			}
 			cur.Clauses = append(cur.Clauses, &Clause{Kind: w, Loop: -1, Src: rest, E: e, Props: props, Name: name})
+		case "uses":
+			// uses lemmaFunc.lawName(arg, ...): instantiate a law proved in a lemma function
+			i := strings.Index(rest, "(")
+			j := strings.LastIndex(rest, ")")
+			if i < 0 || j < i {
+				return nil, fail(fmt.Errorf("bad uses clause"))
+			}
+			cl := &Clause{Kind: "uses", Loop: -1, Src: rest, Name: strings.TrimSpace(rest[:i])}
+			for _, a := range splitTop(rest[i+1:j], ',') {
+				e, err := parseExpr(strings.TrimSpace(a))
+				if err != nil {
+					return nil, fail(err)
+				}
+				cl.Items = append(cl.Items, e)
+			}
+			cur.Clauses = append(cur.Clauses, cl)
 		case "assigns":
 			cl := &Clause{Kind: "assigns", Loop: -1, Src: rest}
 			if rest != "nothing" {
